@@ -49,6 +49,9 @@ type simEnd struct {
 	// Write: the point where the Go scheduler could run this side's OTHER
 	// goroutine (peer.readHandler vs peer.writeHandler share one Machine).
 	hook func(inWrite bool)
+	// cutAfter >= 0: the writer accepts that many more bytes and then times
+	// out (epilogue: a send that is given up)
+	cutAfter int
 }
 
 func (e *simEnd) Write(p []byte) (int, error) {
@@ -56,6 +59,17 @@ func (e *simEnd) Write(p []byte) (int, error) {
 		e.hook(true)
 	}
 	n := len(p)
+	if e.cutAfter >= 0 {
+		if e.cutAfter < len(p) {
+			n = e.cutAfter
+			e.out.buf = append(e.out.buf, p[:n]...)
+			e.cutAfter = 0
+			return n, simTimeout{}
+		}
+		e.cutAfter -= len(p)
+		e.out.buf = append(e.out.buf, p...)
+		return len(p), nil
+	}
 	if e.partialWrites && len(p) > 0 && e.r.Chance(1, 3) {
 		n = e.r.Draw(len(p) + 1) // 0..len(p)
 		n = len(p) - n           // shrinks towards a full write
@@ -259,7 +273,7 @@ func noiseRun(r *simcore.Run) {
 	wAB, wBA := &simWire{}, &simWire{}
 	fired := 0
 	mk := func(name string, m *Machine, in, out *simWire) *noiseSide {
-		e := &simEnd{r: r, in: in, out: out, partialWrites: partial, fragReads: frag, faultsFired: &fired}
+		e := &simEnd{r: r, in: in, out: out, partialWrites: partial, fragReads: frag, faultsFired: &fired, cutAfter: -1}
 		return &noiseSide{name: name, m: m, end: e, conn: &Conn{conn: e, noise: m}, used: map[nonceKey]struct{}{}}
 	}
 	sides := [2]*noiseSide{mk("I", mi, wBA, wAB), mk("R", mr, wAB, wBA)}
@@ -362,6 +376,14 @@ func noiseRun(r *simcore.Run) {
 		}
 		r.Add("rotations", int64(sides[x].rot))
 	}
+	// epilogue (a step of its own at the very end: older replay files end
+	// before it): a caller gives up on a message whose flush timed out
+	if r.Step() {
+		r.Kind("abandon")
+		if x := r.Draw(3); x < 2 {
+			noiseAbandon(r, sides[x], sides[1-x])
+		}
+	}
 	r.Add("messages", int64(delivered))
 	if sides[0].rot+sides[1].rot >= 2 {
 		r.Count("probe_two_rotations")
@@ -443,6 +465,61 @@ func noiseWrite(r *simcore.Run, s *noiseSide, msg []byte, useConnWrite bool) {
 	noiseCheckKeys(r, s)
 	s.sent = append(s.sent, append([]byte(nil), msg...))
 	s.frames = append(s.frames, append([]byte(nil), s.end.out.buf[start:]...))
+}
+
+// noiseAbandon: a message is buffered, its flush times out with at least one
+// and not all of its bytes on the wire, and the caller gives up on it the way
+// lnd's peer does after a write error (Conn.ClearPendingSend), then sends
+// another message on the same connection. The two records of the new message
+// must be sealed under (key, nonce) pairs that were never used - part of the
+// abandoned ciphertext is out - and the peer, whose stream now holds a
+// truncated record, must get an error and no data.
+func noiseAbandon(r *simcore.Run, s, peer *noiseSide) {
+	c := &s.m.sendCipher
+	msg := make([]byte, 1+r.Draw(300))
+	r.Tape.Bytes(msg)
+	frame := 18 + len(msg) + 16
+	cut := 1 + r.Draw(frame-1)
+	for i := uint64(0); i < 2; i++ {
+		k := nonceKey{c.secretKey, c.nonce + i}
+		if _, dup := s.used[k]; dup {
+			r.Fail("nonce-reuse", "%s is about to encrypt with a (key, nonce=%d) pair it already used", s.name, k.nonce)
+		}
+		s.used[k] = struct{}{}
+	}
+	s.end.cutAfter = cut
+	if err := s.conn.WriteMessage(msg); err != nil {
+		r.Fail("write-error", "%s WriteMessage(len=%d): %v", s.name, len(msg), err)
+	}
+	_, err := s.conn.Flush()
+	var ne net.Error
+	if err == nil || !errors.As(err, &ne) || !ne.Timeout() {
+		r.Fail("write-error", "%s: Flush over a writer that accepts %d of %d bytes and then times out returned %v", s.name, cut, frame, err)
+	}
+	s.conn.ClearPendingSend()
+	s.end.cutAfter = -1
+	s.end.partialWrites = false // the next message goes out in one piece
+	r.Count("probe_send_abandoned_after_partial_flush")
+	r.Logf("%s abandons a %d byte message after %d of %d ciphertext bytes went out", s.name, len(msg), cut, frame)
+
+	next := []byte("after the abandoned message")
+	for i := uint64(0); i < 2; i++ {
+		k := nonceKey{c.secretKey, c.nonce + i}
+		if _, dup := s.used[k]; dup {
+			r.Fail("nonce-reuse", "%s gave up on a message of which %d ciphertext bytes had gone out (ClearPendingSend) and seals the next message with (key, nonce=%d), a pair the abandoned message was encrypted with", s.name, cut, k.nonce)
+		}
+		s.used[k] = struct{}{}
+	}
+	if err := s.conn.WriteMessage(next); err != nil {
+		r.Fail("write-error", "%s WriteMessage after ClearPendingSend: %v", s.name, err)
+	}
+	if _, err := s.conn.Flush(); err != nil {
+		r.Fail("write-error", "%s Flush after ClearPendingSend: %v", s.name, err)
+	}
+	peer.end.fragReads = false
+	if got, err := peer.conn.ReadNextMessage(); err == nil {
+		r.Fail("truncated-stream-yields-data", "%s reads a %d byte message from a stream that holds a truncated record (%d of %d bytes) followed by another record", peer.name, len(got), cut, frame)
+	}
 }
 
 // noiseImpatientWrite is a caller that, after a write timed out, tries to
